@@ -3,7 +3,7 @@ import VerylModel.Driver.Util
 /-! `vmodel exprref`: `x <stratum> <wo> <p0> <p1> <p2> <v0> <v1> <v2> <expr>` where `<pi>` is
 `<width-decimal><s|u>`, values are hex, `<expr>` is comma-separated Polish notation
 (`p<i>`, `l<width>:<s|u>:<hex>`, operator names). Reply: the IEEE 1800 value of `assign o = expr`
-in hex, or `dc` (a divisor is zero). The reply is flushed per line so the harness can use the
+in hex, or `div0` (a divisor is zero: do not care). The reply is flushed per line so the harness can use the
 driver interactively while shrinking. -/
 namespace VerylModel.Driver.ExprRef
 open VerylModel.ExprRef VerylModel.Driver
@@ -88,7 +88,7 @@ def reply (t : List String) : String :=
         if wo = 0 ∨ !portsOk ex then "bad-op" else
         match assign [q0, q1, q2] wo ex with
         | some v => toHex v
-        | none => "dc"
+        | none => "div0"
       | _ => "bad-op"
     | _, _, _, _ => "bad-op"
   | _ => "bad-op"
